@@ -254,8 +254,8 @@ func (db *DB) writeLocked(batch, ourBatch *Batch, merge, sync bool) error {
 
 	// Incr seq number.
 	verifAt("w.applied")
+	verifAt("w.publish", db.seq+uint64(batchesLen(batches)))
 	db.addSeq(uint64(batchesLen(batches)))
-	verifAt("w.publish", db.seq)
 
 	// Rotate memdb if it's reach the threshold.
 	if batch.internalLen >= mdbFree {
